@@ -16,6 +16,9 @@ MUTABLE_CTORS = {'dict', 'list', 'set', 'defaultdict', 'OrderedDict', 'deque', '
                  'WeakValueDictionary', 'bytearray'}
 
 
+ONE_SHOT_BUILTINS = {'zip', 'map', 'filter', 'iter', 'reversed', 'enumerate'}
+
+
 IN_PLACE_METHODS = {'add', 'update', 'append', 'extend', 'insert', 'remove', 'discard', 'clear',
                     'pop', 'popitem', 'setdefault', 'sort', 'reverse', 'appendleft', 'popleft',
                     'intersection_update', 'difference_update', 'symmetric_difference_update',
@@ -41,6 +44,29 @@ def mutated_names(module):
 
         def is_global(name):
             return name in module.globals and (name not in local or name in declared)
+        # local names bound to a module-level object itself (no copy): `cur = DEFAULTS`,
+        # `cur = DEFAULTS if x else other` - an in-place update of `cur` updates the global
+        aliases = {}
+        for node in ast.walk(fn.node):
+            if isinstance(node, ast.Assign) and len(node.targets) == 1 and \
+                    isinstance(node.targets[0], ast.Name):
+                srcs = [node.value]
+                if isinstance(node.value, ast.IfExp):
+                    srcs = [node.value.body, node.value.orelse]
+                elif isinstance(node.value, ast.BoolOp):
+                    srcs = list(node.value.values)
+                for src in srcs:
+                    if isinstance(src, ast.Name) and is_global(src.id) and isinstance(
+                            module.globals.get(src.id),
+                            (ast.Dict, ast.List, ast.Set, ast.ListComp, ast.DictComp, ast.SetComp,
+                             ast.Call)):
+                        aliases.setdefault(node.targets[0].id, set()).add(src.id)
+
+        def globals_of(name):
+            got = set(aliases.get(name, ()))
+            if is_global(name):
+                got.add(name)
+            return got
         for node in ast.walk(fn.node):
             tgts = []
             if isinstance(node, ast.Assign):
@@ -53,17 +79,19 @@ def mutated_names(module):
                 base = t
                 while isinstance(base, (ast.Subscript, ast.Attribute)):
                     base = base.value
-                if base is not t and isinstance(base, ast.Name) and is_global(base.id):
-                    out.add(base.id)
+                if base is not t and isinstance(base, ast.Name):
+                    out |= globals_of(base.id)
                 if isinstance(node, ast.AugAssign) and isinstance(t, ast.Name) and t.id in declared:
                     out.add(t.id)
+                if isinstance(node, ast.AugAssign) and isinstance(t, ast.Name) and t.id in aliases:
+                    out |= aliases[t.id]       # `cur += [...]` extends the shared list in place
             if isinstance(node, ast.Call) and isinstance(node.func, ast.Attribute) and \
                     node.func.attr in IN_PLACE_METHODS:
                 base = node.func.value
                 while isinstance(base, (ast.Subscript, ast.Attribute)):
                     base = base.value
-                if isinstance(base, ast.Name) and is_global(base.id):
-                    out.add(base.id)
+                if isinstance(base, ast.Name):
+                    out |= globals_of(base.id)
             # the container escapes: passed to a call or returned / stored elsewhere -> assume
             # it may be mutated there
             if isinstance(node, ast.Call):
@@ -97,6 +125,21 @@ def mutable_globals(module):
                                                           else '')
             if fname in MUTABLE_CTORS:
                 out[name] = 'mutable container'
+    # one-shot iterators bound at module level (zip(...), map(...), a generator expression ...):
+    # the first complete iteration consumes them, every later use finds them empty - iterating is
+    # itself the mutation, whether or not anything else touches the name
+    for name, val in module.globals.items():
+        one_shot = isinstance(val, ast.GeneratorExp)
+        if isinstance(val, ast.Call):
+            f = val.func
+            fname = f.id if isinstance(f, ast.Name) else (f.attr if isinstance(f, ast.Attribute)
+                                                          else '')
+            mod = f.value.id if isinstance(f, ast.Attribute) and isinstance(f.value, ast.Name) \
+                else ''
+            one_shot = (isinstance(f, ast.Name) and fname in ONE_SHOT_BUILTINS) or \
+                (mod == 'itertools')
+        if one_shot:
+            out[name] = 'one-shot iterator: consumed by its first use'
     for fn in list(module.functions.values()) + [m for c in module.classes.values()
                                                  for m in c.methods.values()]:
         for node in ast.walk(fn.node):
